@@ -418,6 +418,22 @@ pub fn a4_std_models(c: &StrCase) -> Outcome {
             pos += n + sep.len();
         }
     }
+    // --- str::split over a concatenation  (u11: axiom split_concat, used by the C09 theorem): for every cut of s into a ++ b,
+    //     split(a ++ sep ++ b) == split(a) ++ split(b) for both line endings
+    for sep in ["\n", "\r\n"] {
+        for k in 0..=s.len() {
+            if !s.is_char_boundary(k) {
+                continue;
+            }
+            let (a, b2) = (&s[..k], &s[k..]);
+            let joined = format!("{}{}{}", a, sep, b2);
+            let mut expect: Vec<&str> = a.split(sep).collect();
+            expect.extend(b2.split(sep));
+            if joined.split(sep).collect::<Vec<_>>() != expect {
+                return Err(format!("split({:?}) of {:?} ++ sep ++ {:?} is not split(a) ++ split(b)", sep, a, b2));
+            }
+        }
+    }
     if s.split('\n').collect::<Vec<_>>() != s.split("\n").collect::<Vec<_>>() {
         return Err(format!("split('\\n') and split(\"\\n\") differ on {:?}", s));
     }
